@@ -6,6 +6,7 @@ package pkcs
 
 import (
 	"encoding/asn1"
+	"errors"
 
 	"golang.org/x/crypto/scrypt"
 )
@@ -29,6 +30,9 @@ type scryptParams struct {
 }
 
 func (p scryptParams) DeriveKey(oidKDF asn1.ObjectIdentifier, password []byte, size int) (key []byte, err error) {
+	if p.BlockSize <= 0 || p.ParallelizationParameter <= 0 {
+		return nil, errors.New("pbes: invalid KDF parameters")
+	}
 	return scrypt.Key(password, p.Salt, p.CostParameter, p.BlockSize,
 		p.ParallelizationParameter, size)
 }
